@@ -257,6 +257,15 @@ def specs():
                 np.random.seed(0)
                 if k == 0:
                     r.append(method(obj, *args[ncons:]))      # a first call that raises is other properties' business
+                    # ... then the object is asked about other inputs (two more, unrelated, argument sets) before it is asked the first question again:
+                    # what it answered in between is not part of the question
+                    margs = args[ncons:]
+                    if margs and all(isinstance(x, np.ndarray) and x.dtype.kind == "f" for x in margs):
+                        for alt in ([np.roll(x, 1, axis=-1) * -1.0 for x in margs], [-x + 0.3 * np.roll(x, 2, axis=-1) for x in margs]):
+                            try:
+                                method(obj, *alt)
+                            except Exception:                 # noqa: BLE001 - an in-between question the method refuses is no question at all
+                                pass
                     continue
                 try:
                     r.append(method(obj, *args[ncons:]))
